@@ -380,6 +380,11 @@ func (c *regexpSimplifyChecker) allChars(e syntax.Expr) bool {
 		if a.Op != syntax.OpChar {
 			return false
 		}
+		switch a.Value {
+		case "]", "^", "-", `\`:
+			// These have a special meaning inside a char class.
+			return false
+		}
 	}
 	return true
 }
